@@ -258,11 +258,38 @@ func (c19Discard) Write(p []byte) (int, error) { return len(p), nil }
 
 var _ io.Writer = c19Discard{}
 
+// c19Mapped records what the driver asked the map seam for since the last c19Seams call.
+type c19MapCall struct {
+	frame mm.Frame
+	size  uintptr
+}
+
+var c19Mapped []c19MapCall
+
+// c19MappedCovers checks that the driver mapped the physical range [phys, phys+n): one request,
+// starting at the frame of phys, whose size rounded up to whole pages (what vmm.MapRegion maps)
+// reaches the last byte. Memory beyond that is not the framebuffer's.
+func c19MappedCovers(phys uintptr, n int) string {
+	if len(c19Mapped) != 1 {
+		return fmt.Sprintf("the driver made %d mapping requests, want exactly one", len(c19Mapped))
+	}
+	r := c19Mapped[0]
+	if r.frame != mm.Frame(phys>>12) {
+		return fmt.Sprintf("the driver mapped frame %#x, the framebuffer is at physical address %#x", uintptr(r.frame), phys)
+	}
+	if pages := (r.size + 4095) >> 12; pages<<12 < uintptr(n) {
+		return fmt.Sprintf("the driver asked for %d bytes to be mapped (%d pages) but uses a framebuffer slice of %d bytes: its last %d bytes lie on a page the driver never mapped", r.size, pages, n, uintptr(n)-pages<<12)
+	}
+	return ""
+}
+
 // c19Seams points the package seams at the guarded block and returns the
 // function that restores them.
 func c19Seams(pageAddr uintptr) func() {
 	oldMap, oldPort := mapRegionFn, portWriteByteFn
-	mapRegionFn = func(_ mm.Frame, _ uintptr, _ vmm.PageTableEntryFlag) (mm.Page, *kernel.Error) {
+	c19Mapped = c19Mapped[:0]
+	mapRegionFn = func(f mm.Frame, size uintptr, _ vmm.PageTableEntryFlag) (mm.Page, *kernel.Error) {
+		c19Mapped = append(c19Mapped, c19MapCall{f, size})
 		return mm.PageFromAddress(pageAddr), nil
 	}
 	portWriteByteFn = func(uint16, uint8) {}
@@ -422,6 +449,9 @@ func c19TextRun(c c19TextCase) (*vlib.Failure, c19OpStats) {
 	}
 	if len(cons.fb) != n || cap(cons.fb) != n || uintptr(unsafe.Pointer(&cons.fb[0])) != pageAddr {
 		return vlib.Failf("DriverInit of a %dx%d text console: framebuffer slice has %d cells (cap %d), want %d cells at the mapped page", cols, rows, len(cons.fb), cap(cons.fb), n), st
+	}
+	if why := c19MappedCovers(0xb8000, 2*len(cons.fb)); why != "" {
+		return vlib.Failf("DriverInit of a %dx%d text console: %s", cols, rows, why), st
 	}
 	if !c.AtStart {
 		// same construction, placed so that the last cell abuts the inaccessible page
